@@ -667,6 +667,16 @@ func (fr *Frame) arith(x *ssa.BinOp, op, a, b string, rt types.Type, reach strin
 			r := g.define("diff", SInt, raw)
 			return sIte(app(">=", r, "0"), r, app("+", r, m))
 		}
+	} else if op == "+" || op == "-" {
+		// the hidden index of a slice/array/string range loop: phi ∈ [-1, len-1] and len ≤ MaxInt, so phi+1 never wraps
+		if phi, ok := x.X.(*ssa.Phi); ok && phi.Comment == "rangeindex" && op == "+" && b == "1" {
+			return raw
+		}
+		// one signed addition/subtraction of two in-range values leaves the range by less than 2^bits: a case split
+		// instead of `mod` (same value, far easier for the solvers and usable next to triggers)
+		h := pow2s(bits - 1)
+		r := g.define("ssum", SInt, raw)
+		return sIte(app(">=", r, h), app("-", r, m), sIte(app("<", r, app("-", h)), app("+", r, m), r))
 	}
 	return wrapTo(raw, rt)
 }
